@@ -20,7 +20,7 @@ x := op(x, y). With a,b = self.numer,self.denom and c,d = rhs.numer,rhs.denom at
   R3  fields private; struct literal only in `new_raw` and the derived `Clone`.
 """
 import re
-from symex import paths_of, show, strip, TooManyPaths
+from symex import paths_of, show, strip, TooManyPaths, private_helper
 from core import op_place
 
 ADT = 'yui::types::ratio::Ratio'
@@ -82,7 +82,8 @@ def check_reduce(facts, rep):
     rep.saw(b)
     n0, d0 = A(1, 'numer'), A(1, 'denom')
     root = ('ptr', ('arg', 1))
-    rets = [p for p in paths_of(b) if p.end == 'return']
+    # private helpers of the module are executed in place (a refactoring may split reduce into phases)
+    rets = [p for p in paths_of(b, inline=private_helper(exclude=('reduce',))) if p.end == 'return']
     if not rets:
         rep.indet('E1 Ratio: reduce has no return path')
         return
@@ -205,8 +206,24 @@ def run(facts, rep):
                 and b.kind != 'Closure']
     clean_fns = {b.defp for b in subjects}
     nmut = nret = 0
+    # private helpers that only the normaliser calls are phases of the normaliser (checked in place by R0), not API
+    rcg = facts.rev_callgraph()
+    phases = set()
+    changed = True
+    while changed:
+        changed = False
+        for b in subjects:
+            if b.defp in phases or b.defp == REDUCE or b.d.get('vis', 'pub') == 'pub':
+                continue
+            callers = set(rcg.get(b.defp, ()))
+            if callers and all(c == REDUCE or c in phases for c in callers):
+                phases.add(b.defp)
+                changed = True
     for b in sorted(subjects, key=lambda x: x.defp):
         if b.defp == REDUCE:
+            continue
+        if b.defp in phases:
+            rep.ok('E1.R1-shortcut-paths', '%s|private phase of reduce()' % b.defp, 'only called from the normaliser; analysed in place (R0)')
             continue
         first_mut = b.arg_count >= 1 and b.local_ty(1).startswith('&mut ') and b.locals[1].get('adt') == ADT
         returns_ratio = b.ret_ty.startswith('types::ratio::Ratio<') or 'ratio::Ratio<' in b.ret_ty
